@@ -1579,6 +1579,15 @@ def rule_r12(prog, res) -> None:
         raise AnalysisError("C01.R12: the draining loop of the pair iterator was not recognised")
 
 
+def rule_r13(prog, res) -> None:
+    """the redshift at which the counting angle of a bin is evaluated is the bin's centre (= C10.R7: the derived
+    quantities of a binning, folded on a witness)"""
+    from . import c10
+    from .common import shared_rule
+
+    shared_rule(res, c10.rule_r7, "C10", "C10.R7", "C01.R13")
+
+
 RULES = [
     ("C01.R1", rule_r1, QUICK),
     ("C01.R2", rule_r2, QUICK),
@@ -1592,4 +1601,5 @@ RULES = [
     ("C01.R10", rule_r10, QUICK),
     ("C01.R11", rule_r11, QUICK),
     ("C01.R12", rule_r12, QUICK),
+    ("C01.R13", rule_r13, QUICK),
 ]
